@@ -372,7 +372,7 @@ func e2eCache(t *testing.T, tw *tracefmt.Writer, st *stats, rng *rand.Rand, runs
 			if err != nil {
 				t.Fatal(err)
 			}
-			be.Handler = func(a *literig.Accepted) {
+			be.SetHandler(func(a *literig.Accepted) {
 				defer a.Conn.Close()
 				_ = a.Conn.SetDeadline(time.Now().Add(30 * time.Second))
 				hs, err := readFrame(a.Conn)
@@ -392,7 +392,7 @@ func e2eCache(t *testing.T, tw *tracefmt.Writer, st *stats, rng *rand.Rand, runs
 				tw.Emit(tracefmt.Rec{"ev": "fend", "f": f})
 				js := statusJSON("v" + strconv.Itoa(f))
 				_, _ = a.Conn.Write(literig.Frame(append([]byte{0x00}, literig.AppendString(nil, js)...)))
-			}
+			})
 			bes = append(bes, be)
 		}
 		mkRoutes := func(extra int) []config.Route {
@@ -499,7 +499,7 @@ func e2eFallback(t *testing.T, tw *tracefmt.Writer, st *stats, rng *rand.Rand, n
 			if err != nil {
 				t.Fatal(err)
 			}
-			be.Handler = func(a *literig.Accepted) {
+			be.SetHandler(func(a *literig.Accepted) {
 				defer a.Conn.Close()
 				_ = a.Conn.SetDeadline(time.Now().Add(30 * time.Second))
 				if !oks[b] && mode == 0 {
@@ -519,7 +519,7 @@ func e2eFallback(t *testing.T, tw *tracefmt.Writer, st *stats, rng *rand.Rand, n
 				}
 				js := statusJSON("B" + strconv.Itoa(b+1))
 				_, _ = a.Conn.Write(literig.Frame(append([]byte{0x00}, literig.AppendString(nil, js)...)))
-			}
+			})
 			bes = append(bes, be)
 			addrs = append(addrs, fmt.Sprintf("127.0.0.1:%d", be.Port))
 		}
